@@ -159,6 +159,7 @@ type ASystem struct {
 	NCat    int         `json:"ncat"`
 	TCat    []int       `json:"tcat"` // type index -> category index (from the package)
 	MaxDay  int         `json:"maxday"`
+	Dup     bool        `json:"dup"` // store: "restore" (Store of an id that is already stored) is in the alphabet
 	// ret / log
 	DefRet  int        `json:"defret"`
 	CatRet  []int      `json:"catret"`  // per category index, -1 = not configured
@@ -318,6 +319,11 @@ func (s *ASystem) Events() []core.Event {
 	case "store":
 		for i := range s.Slots {
 			l = append(l, ev("store", "i", i+1))
+		}
+		if s.Dup {
+			for i := range s.Slots {
+				l = append(l, ev("restore", "i", i+1))
+			}
 		}
 		for _, b := range s.Batches {
 			l = append(l, ev("batch", "is", append([]int{}, b...)))
@@ -573,6 +579,14 @@ func (in *storeInst) Apply(e core.Event) map[string]any {
 	case "store":
 		i := toInt(e["i"])
 		if in.present()[i] {
+			res["skip"] = true
+			return res
+		}
+		res["skip"] = false
+		res["err"] = in.st.Store(ctx, slotEvent(in.t0, i, in.s.Slots[i-1])) != nil
+	case "restore":
+		i := toInt(e["i"])
+		if !in.present()[i] {
 			res["skip"] = true
 			return res
 		}
